@@ -182,20 +182,21 @@ let run_ast (args : string list) : string =
   | "xls" :: sh :: nm :: xt :: ast :: _ ->
     let env = { xe_sheets = name_list sh; xe_names = name_list nm; xe_xtis = xti_list xt } in
     let ex = parse_ast (Array.of_list (String.split_on_char ' ' ast)) in
-    let bytes = frame_xls (encode_xls ex) in
+    (* the model runs on exactly the bytes that travel (an ill-formed AST may yield values > 255) *)
+    let bytes = bytes_of_hex (hex_of_bytes (frame_xls (encode_xls ex))) in
     String.concat "|" [ hex_of_bytes bytes;
                         out_str (xls_parse_formula show_f64 env bytes);
                         hex_of_scalars (render_xls show_f64 env ex);
-                        opt_n (known_xls ex);
+                        "-";   (* no known class is left *)
                         (if wf_xls env ex then "1" else "0") ]
   | "xlsb" :: sh :: nm :: ast :: _ ->
     let env = { be_sheets = name_list sh; be_names = name_list nm } in
     let ex = parse_ast (Array.of_list (String.split_on_char ' ' ast)) in
-    let bytes = encode_xlsb ex in
+    let bytes = bytes_of_hex (hex_of_bytes (encode_xlsb ex)) in
     String.concat "|" [ hex_of_bytes bytes;
                         out_str (xlsb_parse_formula show_f64 env bytes);
                         hex_of_scalars (render_xlsb show_f64 env ex);
-                        opt_n (known_xlsb ex);
+                        "-";
                         (if wf_xlsb env ex then "1" else "0") ]
   | _ -> "bad-args"
 
